@@ -1,63 +1,95 @@
 (* C04 — no credentials or stanzas without verified TLS unless Insecure is set.
-   [o_tls] is a ghost flag: the state of the real channel when the request was
-   written (reset by every new TCP connection, set only by a successful handshake
-   with verification); the code's own flags (XMPPTransport.isSecure,
-   Session.TlsEnabled) are separate fields of [persist] that survive reconnects. *)
+
+   The code decides with two flags that live on objects re-used by every connection of a Client:
+   transport.IsSecure() (XMPPTransport.isSecure, [p_code_secure]) and Session.TlsEnabled
+   ([p_tls_enabled]).  Model/TlsPolicy.connect_fl READS them where the code does; [o_tls] of every
+   write is a ghost: the state of the real channel (false on a new TCP connection, true from a
+   successful StartTLS on), never derived from the flags.  connect_fl true (with the two resets the
+   repaired code performs) is proved equal to the shared Session.connect, which is what the
+   correspondence runs compare with the implementation. *)
 From Coq Require Import List ZArith NArith Bool.
 From XV Require Import Lib.Sx Model.Session Model.SessionSpec Proofs.SessionP Proofs.SessionSpecP.
-From XV Require Import Model.Gate Proofs.GateP.
+From XV Require Import Model.Gate Proofs.GateP Model.TlsPolicy Proofs.TlsPolicyP.
 Import ListNotations.
 
-(* For every history of connections (any scripts, any TLS outcomes, any state left
-   by earlier connections): with Insecure = false everything written outside TLS is
-   a stream header or <starttls/>. *)
+(* The flag-reading model with the resets is the session model (for every input and state). *)
+Theorem C04_flag_model_is_session_model :
+  (forall cfg dial tls p s, connect_fl true cfg dial tls p s = connect cfg dial tls p s) /\
+  (forall cfg p cs, run_conns_fl true cfg p cs = run_conns cfg p cs).
+Proof. split; [exact connect_fl_is_connect|intros; apply run_conns_fl_is_run_conns]. Qed.
+
+(* One connection, the gate as the code decides it.  Whether or not the resets are there: if at the
+   start of the connection the transport does not claim to be secure, then with Insecure = false
+   everything written outside TLS is a stream header or <starttls/>.  The resets (reset = true)
+   establish that premise from ANY state. *)
+Theorem C04_gate_by_flags : forall reset cfg dial tls p0 s,
+  reset = true \/ p_code_secure p0 = false ->
+  c_insecure cfg = false ->
+  Forall (fun x => o_tls x = false -> clear_ok (o_req x) = true) (fst (fst (connect_fl reset cfg dial tls p0 s))).
+Proof. exact connect_fl_no_cleartext. Qed.
+
+(* For every history of connections (any scripts, any TLS outcomes) from ANY state the re-used
+   objects may be in -- stale flags included, they are states of this model --: with Insecure =
+   false everything written outside TLS is a stream header or <starttls/>. *)
 Theorem C04_no_cleartext : forall cfg p conns,
   c_insecure cfg = false ->
   Forall (fun wrp => Forall (fun x => o_tls x = false -> clear_ok (o_req x) = true) (fst (fst wrp)))
-         (run_conns cfg p conns).
-Proof. intros cfg p conns. apply run_conns_no_cleartext. Qed.
+         (run_conns_fl true cfg p conns).
+Proof. intros cfg p conns. apply run_conns_fl_no_cleartext. Qed.
 
-(* Anything written inside TLS implies that the handshake including certificate and
-   host-name verification succeeded (tls_ok is that oracle). *)
-Theorem C04_no_unverified : forall cfg dial tls p script,
-  Exists (fun x => o_tls x = true) (outs (connect cfg dial tls p script)) -> tls = true.
-Proof. intros cfg dial tls p script. apply connect_tls_verified. Qed.
+(* ... and without the resets it is false, from a NEW client: a session over verified TLS, then a
+   connection to a server that offers no TLS: the stale isSecure lets the gate pass, the stale
+   TlsEnabled restarts the stream, and the password goes out in clear text (D12, repaired by
+   98e9755); with the resets the same history is clean. *)
+Theorem C04_stale_flags_refuted :
+  c_insecure d12_cfg = false /\
+  map (fun wrp => leaks (fst (fst wrp))) (run_conns_fl false d12_cfg (fresh false) d12_history) = [false; true] /\
+  map (fun wrp => leaks (fst (fst wrp))) (run_conns_fl true d12_cfg (fresh false) d12_history) = [false; false].
+Proof. split; [reflexivity|exact stale_flags_leak]. Qed.
 
-(* STARTTLS not offered / <failure/> / garbage / close / failed handshake, with
-   Insecure = false: error, permanent, and no authentication request at all. *)
+(* The flags are sound for the channel: isSecure left true by a connection means that THIS
+   connection's handshake and verification went through and TLS was written on; after a successful
+   negotiation Session.TlsEnabled says exactly whether the session runs over TLS. *)
+Theorem C04_flags_sound : forall cfg tls p s,
+  let x := connect cfg true tls p s in
+  stale_secure (fst (fst x)) (snd x) = false /\
+  (snd (fst x) = Ok -> p_tls_enabled (snd x) = existsb o_tls (fst (fst x))) /\
+  (p_code_secure (snd x) = true -> tls = true).
+Proof. exact connect_flags_sound. Qed.
+
+(* "never over TLS when the server certificate does not validate for the configured domain (unless
+   certificate verification was explicitly disabled)": the outcome of StartTLS is the decision of
+   Model/TlsPolicy.start_tls (ServerName defaulting to the domain, handshake, then
+   VerifyHostname(Domain) unless InsecureSkipVerify).  Anything written inside TLS implies
+   InsecureSkipVerify, or a trusted unexpired chain AND a certificate valid for the configured
+   domain (and for ServerName when one is set). *)
+Theorem C04_verified_for_domain : forall cfg dial t c p s,
+  Exists (fun x => o_tls x = true) (fst (fst (connect cfg dial (start_tls t c) p s))) ->
+  t_skip t = true \/
+  (c_trusted c = true /\ valid_for c (t_domain t) = true /\
+   valid_for c (match t_servername t with [] => t_domain t | n => n end) = true).
+Proof. exact connect_verified_for_domain. Qed.
+
+(* STARTTLS not offered / <failure/> / garbage / close / failed handshake, with Insecure = false:
+   no success and no authentication request at all ... *)
 Theorem C04_starttls_replies : forall cfg dial tls p script,
   c_insecure cfg = false ->
   (forall id f id1 f1 s5, script = SHeader id :: SFeatures f :: SProceed :: SHeader id1 :: SFeatures f1 :: s5 ->
                           f_tls f = TlsNone \/ tls = false) ->
   res (connect cfg dial tls p script) <> Ok /\
   forall m, ~ In (RAuth m) (reqs (outs (connect cfg dial tls p script))).
-Proof.
-  intros cfg dial tls p script Hi Hs. split.
-  - intros H. apply connect_ok in H. destruct H as (_ & id & f & s2 & -> & H).
-    destruct (f_tls f) eqn:Et.
-    + destruct H as [H _]. congruence.
-    + destruct H as (Ht & id1 & f1 & s5 & -> & _). destruct (Hs _ _ _ _ _ eq_refl); congruence.
-    + destruct H as (Ht & id1 & f1 & s5 & -> & _). destruct (Hs _ _ _ _ _ eq_refl); congruence.
-  - intros m Hin.
-    pose proof (connect_no_cleartext cfg dial tls p script Hi) as Hc.
-    pose proof (connect_tls_verified cfg dial tls p script) as Hv.
-    unfold reqs, outs in *. apply in_map_iff in Hin as (x & Hx & Hin).
-    rewrite Forall_forall in Hc. specialize (Hc x Hin).
-    destruct (o_tls x) eqn:Ex.
-    + (* written inside TLS: then the script had the whole STARTTLS exchange and tls = true *)
-      assert (Ht : tls = true). { apply Hv. apply Exists_exists. exists x. split; assumption. }
-      revert Hin. unfold connect. destruct (negb dial); [intros []|].
-      destruct script as [|[] s1]; try (intros [H|[]]; subst; discriminate).
-      destruct s1 as [|[] s2]; try (intros [H|[]]; subst; discriminate).
-      cbn [read_header read_features]. rewrite Hi.
-      destruct (f_tls f) eqn:Et; [intros [H|[]]; subst; discriminate| |].
-      all: destruct s2 as [|[] s3]; try (intros [H|[H|[]]]; subst; discriminate).
-      all: cbn [read_proceed]; rewrite Ht.
-      all: destruct s3 as [|[] s4]; try (intros [H|[H|[H|[]]]]; subst; discriminate).
-      all: cbn [read_header]; destruct s4 as [|[] s5]; try (intros [H|[H|[H|[]]]]; subst; discriminate).
-      all: destruct (Hs _ _ _ _ _ eq_refl); congruence.
-    + rewrite Hx in Hc. specialize (Hc eq_refl). discriminate.
-Qed.
+Proof. exact starttls_replies. Qed.
+
+(* ... and the error is a permanent ConnError whenever it is a matter of policy: the feature is
+   absent, the server answered something else than <proceed/> (the connection being still there), or
+   the handshake / the certificate was not accepted. *)
+Theorem C04_starttls_refusals_permanent : forall cfg tls p id f s2,
+  c_insecure cfg = false ->
+  f_tls f = TlsNone \/
+  (f_tls f <> TlsNone /\ read_proceed s2 = None /\ is_cut s2 = false) \/
+  (f_tls f <> TlsNone /\ read_proceed s2 <> None /\ tls = false) ->
+  snd (fst (connect cfg true tls p (SHeader id :: SFeatures f :: s2))) = Err true true.
+Proof. exact starttls_refusals_permanent. Qed.
 
 (* What the APPLICATION sends (Client.Send / SendRaw / SendIQ and the stream-management resend all end
    in sendWithWriter, behind the send gate of Model/Gate.v), from any goroutine, at any moment of any
@@ -88,29 +120,45 @@ Theorem C04_resend_gated : forall g,
   g_closed g = true -> gstep g GResend = (g, [Refused]) /\ gstep g GSend = (g, [Refused]).
 Proof. intros g Hc. split; [apply gstep_resend_closed; exact Hc|cbn; rewrite Hc; reflexivity]. Qed.
 
-(* WebSocket transport: authentication data is written only when the connection the opening
-   handshake ENDED on is TLS (unless Insecure); a wss:// address never ends on a clear-text
-   connection, whatever redirects the HTTP endpoint answers with. *)
-Theorem C04_ws_auth_only_over_tls : forall addr redirects b,
-  ws_connect false addr redirects = WAuth b -> b = true.
-Proof. intros addr redirects b. apply ws_connect_auth_tls. reflexivity. Qed.
-
-Theorem C04_wss_never_downgraded : forall insecure redirects,
-  ws_connect insecure Https redirects <> WAuth false.
-Proof. exact ws_connect_wss_never_clear. Qed.
+(* WebSocket transport (the opening handshake may be answered by redirects): authentication data goes
+   out in clear text only when the application allowed insecure connections AND no URL of the chain,
+   the configured address included, was a TLS one; once a URL of the chain is https the connection
+   established is TLS. *)
+Theorem C04_ws_clear_auth_only_if_allowed : forall insecure addr redirects,
+  ws_connect insecure addr redirects = WAuth false ->
+  insecure = true /\ addr = Http /\ ~ In Https redirects.
+Proof. exact ws_connect_clear_auth. Qed.
 
 Theorem C04_ws_redirects_never_leave_tls : forall cur redirects n s,
   ws_dial cur redirects n = Some s -> cur = Https \/ In Https redirects -> s = Https.
 Proof. intros cur redirects n s. apply ws_dial_no_downgrade. Qed.
 
+(* hypotheses are satisfiable, and the flags matter: the second connection of a history whose first
+   one ran over TLS, from the state that connection left (isSecure, TlsEnabled = true): with the
+   resets nothing but the header and <starttls/> is written; without them the request after the
+   header is the authentication, in clear text *)
 Example C04_example :
-  let f0 := {| f_tls := TlsOffered; f_mechs := [mech_plain]; f_bind := false; f_sess := SessAbsent; f_sm := false |} in
+  let f0 := {| f_tls := TlsNone; f_mechs := [mech_plain]; f_bind := false; f_sess := SessAbsent; f_sm := false |} in
   let cfg := {| c_insecure := false; c_resource := []; c_sm_resume := false; c_mechs := [mech_plain] |} in
-  (* second connection of a history whose first one ran over TLS: the stale flags are reset *)
   let p := set_flags (with_session (fresh false)) true true in
-  outs (connect cfg true false p [SHeader []; SFeatures f0; SProceed; SHeader []; SFeatures f0; SSuccess])
-  = [o false ROpen []; o false RStartTls [SHeader []; SFeatures f0]].
-Proof. reflexivity. Qed.
+  let script := [SHeader []; SFeatures f0; SHeader []; SFeatures f0; SSuccess] in
+  reqs (fst (fst (connect_fl true cfg true false p script))) = [ROpen] /\
+  reqs (fst (fst (connect_fl false cfg true false p script))) = [ROpen; ROpen; RAuth mech_plain; ROpen].
+Proof. split; reflexivity. Qed.
+
+(* the certificate decision on the four kinds of certificate of the harness, ServerName unset / set *)
+Example C04_cert_example :
+  let dom := s_ [120]%Z in let other := s_ [121]%Z in
+  let t := {| t_skip := false; t_servername := []; t_domain := dom |} in
+  let tsn := {| t_skip := false; t_servername := other; t_domain := dom |} in
+  start_tls t {| c_trusted := true; c_names := [dom] |} = true /\
+  start_tls t {| c_trusted := true; c_names := [other] |} = false /\
+  start_tls t {| c_trusted := false; c_names := [dom] |} = false /\
+  start_tls tsn {| c_trusted := true; c_names := [other] |} = false /\      (* valid for ServerName only *)
+  start_tls tsn {| c_trusted := true; c_names := [dom] |} = false /\        (* valid for Domain only *)
+  start_tls tsn {| c_trusted := true; c_names := [dom; other] |} = true /\
+  start_tls {| t_skip := true; t_servername := []; t_domain := dom |} {| c_trusted := false; c_names := [] |} = true.
+Proof. repeat split. Qed.
 
 (* a Client that lost a TLS session and reconnects; the peer withholds <proceed/>; two sends and a
    retransmission arrive meanwhile (after the client's second request), one of each after the attempt
@@ -135,12 +183,16 @@ Example C04_ws_example :
   ws_connect true Https [Https; Http] = WDialError.
 Proof. repeat split. Qed.
 
+Print Assumptions C04_flag_model_is_session_model.
+Print Assumptions C04_gate_by_flags.
 Print Assumptions C04_no_cleartext.
-Print Assumptions C04_no_unverified.
+Print Assumptions C04_stale_flags_refuted.
+Print Assumptions C04_flags_sound.
+Print Assumptions C04_verified_for_domain.
 Print Assumptions C04_starttls_replies.
+Print Assumptions C04_starttls_refusals_permanent.
 Print Assumptions C04_sends_gated.
 Print Assumptions C04_no_send_while_connecting.
 Print Assumptions C04_resend_gated.
-Print Assumptions C04_ws_auth_only_over_tls.
-Print Assumptions C04_wss_never_downgraded.
+Print Assumptions C04_ws_clear_auth_only_if_allowed.
 Print Assumptions C04_ws_redirects_never_leave_tls.
